@@ -1425,3 +1425,4 @@ case("c11-refactor-choice-claimed-any", "C11", "refactor", [(H + "start_stage/co
 case("c04-trigger-only-last-upstream", "C04", "mutant", [(H + "complete_stage/handler.py", "                            for downstream in activated_downstreams:", "                            for downstream in [d for d in activated_downstreams if d.all_upstream_stages_complete()]:")], "C04.R5")
 case("c09-sweep-string-compare", "C09", "mutant", [("src/stabilize/persistence/sqlite/operations.py", "WHERE datetime(processed_at) < datetime(:cutoff)", "WHERE processed_at < :cutoff")], "C09.R5")
 case("c02-merge-reads-end-time", "C02", "mutant", [("src/stabilize/persistence/sqlite/queries.py", "        SELECT ref_id, requisite_stage_ref_ids, outputs\n", "        SELECT ref_id, requisite_stage_ref_ids, outputs, end_time\n")], "C02.R6")
+case("c02-jump-leaves-redirect-task", "C02", "mutant", [(H + "jump_to_stage/reset.py", "        if task.status in (WorkflowStatus.RUNNING, WorkflowStatus.REDIRECT):", "        if task.status == WorkflowStatus.RUNNING:")], "C02.R7")
